@@ -15,13 +15,16 @@ KINDS_2 = ["quantity2", "sky2d", "sky2mesh"]
 SEPARABLE = ("quantity2", "quantity3")
 
 
-def gen_layout(rng, nd, shape, n_ecs=None, allow_wcs=True):
+def gen_layout(rng, nd, shape, n_ecs=None, allow_wcs=True, p_wcs=0.12):
     """Returns (ecs, shape); shape may be adjusted so that a meshed SkyCoord table is square."""
     shape = list(shape)
-    if allow_wcs and rng.random() < 0.12:
+    if allow_wcs and rng.random() < p_wcs:
         n = rng.randint(1, nd)
-        mapping = [rng.randrange(n) for _ in range(n)] if rng.random() < 0.3 else rng.sample(range(n), n)
-        return [{"kind": "wcs", "mapping": mapping}], shape
+        shared = rng.random() < 0.3
+        mapping = [rng.randrange(n) for _ in range(n)] if shared else rng.sample(range(n), n)
+        # a separable FITS WCS, or (on distinct axes) one with a coupled celestial pair
+        efam = "fits_cel" if (not shared and n >= 2 and rng.random() < 0.5) else "fits_sep"
+        return [{"kind": "wcs", "mapping": mapping, "efam": efam}], shape
     ecs = []
     n_ecs = rng.choice([0, 1, 1, 2, 2, 3, 4]) if n_ecs is None else n_ecs
     for _ in range(n_ecs):
@@ -67,7 +70,7 @@ def add_ecs(cube, ecs, shape, voff=0.0):
         kind = ec["kind"]
         if kind == "wcs":
             sub = [shape[len(shape) - 1 - m] for m in ec["mapping"]][::-1]   # array shape of the EC wcs
-            ew = W.make_fits(random.Random(77 + len(shape)), sub, "fits_sep")
+            ew = W.make_fits(random.Random(77 + len(shape)), sub, ec.get("efam", "fits_sep"))
             ew.wcs.cname = ["ec_" + str(c) for c in ew.wcs.cname]   # names distinct from the primary WCS's
             ew.wcs.set()
             e = ExtraCoords(cube)
@@ -127,9 +130,11 @@ def coord_deps(ecs, cube=None):
     for k, ec in table_order(ecs):
         if ec["kind"] == "wcs":
             nd = cube.data.ndim
-            names = list(cube.extra_coords.wcs.world_axis_names)
-            for j, m in enumerate(ec["mapping"]):
-                out.append((names[j], [nd - 1 - m]))
+            ew = cube.extra_coords.wcs
+            names = list(ew.world_axis_names)
+            corr = np.asarray(ew.axis_correlation_matrix, dtype=bool)
+            for i in range(len(names)):
+                out.append((names[i], sorted({nd - 1 - ec["mapping"][j] for j in range(corr.shape[1]) if corr[i, j]})))
             continue
         nm = names_of(k, ec)
         if ec["kind"] in SEPARABLE:
@@ -181,11 +186,17 @@ def gen_chain(rng, shape, steps, need_drop=False):
     # a targeted pattern: first cut a range that does not start at 0 on every axis, then index
     # with integers - what later steps pick is then relative to a shifted origin
     offset_then_int = steps >= 2 and rng.random() < 0.45
+    # another targeted pattern: every step drops exactly one axis (coupled pairs lose their axes one at a time)
+    one_by_one = steps >= 2 and not offset_then_int and rng.random() < 0.4
     for s in range(steps):
         if not shape:
             break
         for _ in range(30):
-            if offset_then_int and s == 0:
+            if one_by_one and len(shape) >= 2:
+                items = [C.sl() for _ in shape]
+                k = rng.randrange(len(shape))
+                items[k] = rng.randint(-shape[k], shape[k] - 1)
+            elif offset_then_int and s == 0:
                 items = [C.sl(rng.randint(1, n - 1), None if rng.random() < 0.5 else n + 1) if n >= 2 else C.sl() for n in shape]
             elif offset_then_int:
                 items = [gen_axis_item(rng, n, 0.7) for n in shape]
